@@ -113,7 +113,7 @@ def run_one(choices, params):
                     outcome = "timeout"
                 t1 = sim.now
                 mine = [s for s in spy.owner if s not in seq_before and spy.owner[s] == caller_id]
-                seq = min(mine) if mine else None
+                seq = mine[0] if mine else None          # first in order of issue
                 td = spy.done.get(seq)
                 tainted = spy.tainted_between(t0, t1)
                 where = spy.blocked_at_done.get(seq)
